@@ -87,7 +87,8 @@ Proof.
     assert (Hft : forall fuel i j k fa io0 s1, pw (fst (fst (feed_tasks fuel i j k fa io0 s1))) = pw s1).
     { induction fuel as [|f IH]; intros; cbn [feed_tasks]; [reflexivity|].
       destruct (okey_eqb (Some k) fa); [|apply IH]. destruct io0; [reflexivity|].
-      rewrite IH. destruct (cached s1 j); reflexivity. }
+      rewrite IH. destruct (cached s1 j) as [x|]; [|reflexivity].
+      destruct (kind x); try reflexivity. destruct (ready x); reflexivity. }
     assert (Hfs : forall fs k fa io0 s1, pw (fst (fst (do_feeds fs k fa io0 s1))) = pw s1).
     { induction fs as [|[[j n] sl] r IH]; intros; cbn [do_feeds]; [reflexivity|].
       pose proof (Hft (Z.to_nat n) 0 j k fa io0 s1) as H0.
@@ -135,6 +136,11 @@ Proof.
   - unfold do_next. destruct (get_job _ j) as [x|]; [|reflexivity].
     destruct (negb (is_imap x)); [reflexivity|].
     destruct (items x); [destruct (okey_eqb _ _)|]; reflexivity.
+  - unfold do_apply_q, do_apply.
+    destruct (negb (pstate (with_sigs s []) =? 0)); [reflexivity|].
+    destruct ((match slot with Some b => b | None => putlocks (with_sigs s []) end) && (LaxSem.value (sem (with_sigs s [])) =? 0)); [reflexivity|]. cbn [fst].
+    destruct (match slot with Some b => b | None => putlocks (with_sigs s []) end); reflexivity.
+  - unfold do_apply_unsendable. destruct (negb (pstate _ =? 0)); [reflexivity|]. destruct (_ && _); reflexivity.
 Qed.
 
 Lemma WInv_pw s s' : pw s' = pw s -> length (procs s') = length (procs s) -> WInv s -> WInv s'.
